@@ -4,7 +4,8 @@ from fractions import Fraction
 from .. import common, sd_gen, sd_dsl, xmile_gen as X
 from ..sd_gen import fr
 
-ELEMENTS = ["c1", "fin", "bf", "fout", "fo2", "s1", "s2", "s3", "s4", "lkt", "lks"]
+ELEMENTS = ["c1", "fin", "bf", "fout", "fo2", "s1", "s2", "s3", "s4", "lkt", "lks", "lkx", "lkd", "lkxs"]
+DSL_ELEMENTS = ["c1", "fin", "bf", "fout", "fo2", "s1", "s2", "s3", "s4", "lkt", "lks"]      # the DSL has the continuous lookup only
 
 
 def num(v):
@@ -31,7 +32,7 @@ def flow(name, eqn, non_negative):
     return '\t\t\t<flow name="%s">\n\t\t\t\t<eqn>%s</eqn>\n%s\t\t\t</flow>\n' % (name, escape(eqn), "\t\t\t\t<non_negative/>\n" if non_negative else "")
 
 
-def gf_aux(name, eqn, points, explicit_x):
+def gf_aux(name, eqn, points, explicit_x, kind=None):
     xs = [fr(x) for x, _ in points]
     ys = ",".join(num(y) for _, y in points)
     even = all(xs[k + 1] - xs[k] == xs[1] - xs[0] for k in range(len(xs) - 1))
@@ -39,7 +40,8 @@ def gf_aux(name, eqn, points, explicit_x):
         scale = "<xpts>%s</xpts>" % ",".join(num(x) for x, _ in points)
     else:
         scale = '<xscale min="%s" max="%s"/>' % (num(points[0][0]), num(points[-1][0]))
-    return '\t\t\t<aux name="%s">\n\t\t\t\t<eqn>%s</eqn>\n\t\t\t\t<gf>\n\t\t\t\t\t%s\n\t\t\t\t\t<ypts>%s</ypts>\n\t\t\t\t</gf>\n\t\t\t</aux>\n' % (name, eqn, scale, ys)
+    return '\t\t\t<aux name="%s">\n\t\t\t\t<eqn>%s</eqn>\n\t\t\t\t<gf%s>\n\t\t\t\t\t%s\n\t\t\t\t\t<ypts>%s</ypts>\n\t\t\t\t</gf>\n\t\t\t</aux>\n' % (
+        name, eqn, "" if kind is None else ' type="%s"' % kind, scale, ys)
 
 
 def document(P, rs, spelling, variant):
@@ -52,7 +54,9 @@ def document(P, rs, spelling, variant):
          flow("f4", ["lkt + c1^2", "c1*c1 + lkt"][variant % 2], False),
          stock("s1", num(P["s0"]), ["fin"], ["fout", "fo2"]), stock("s2", "0", ["bf", "fout"], []),
          stock("s3", "0", ["f3"], []), stock("s4", "0", ["f4"], []),
-         gf_aux("lkt", "TIME", P["pts"], variant % 2 == 0), gf_aux("lks", "s1", P["pts"], variant % 2 == 1)]
+         gf_aux("lkt", "TIME", P["pts"], variant % 2 == 0, [None, "continuous"][variant % 2]), gf_aux("lks", "s1", P["pts"], variant % 2 == 1),
+         gf_aux("lkx", "TIME", P["pts"], variant % 2 == 1, "extrapolate"), gf_aux("lkd", "TIME", P["pts"], variant % 2 == 0, "discrete"),
+         gf_aux("lkxs", "s1", P["pts"], variant % 2 == 0, "extrapolate")]
     return X.document("c04", v, start=f2(start), stop=f2(stop), dt=dt_xml(rs["dt"], spelling))
 
 
@@ -154,7 +158,7 @@ def run(tier, replay_file=None):
                     m, *_ = sd_dsl.build(case["P"], case["rs"], "d%d" % n, spelling=n)
                     sim2, _ = X.compile_doc(document(case["P"], case["rs"], spelling, n), workdir)
                     for k, t in enumerate(ts):
-                        for el in ELEMENTS:
+                        for el in DSL_ELEMENTS:
                             if fr(case["traj"][k][el]) is None:
                                 continue
                             a, b = float(sim2.equation(el, t)), float(m.evaluate_equation(el, t))
